@@ -13,9 +13,14 @@ from standins import oracle as O
 
 def decorate(run, t, k):
     rng = run.rng
-    if rng.random() < 0.5:
+    r_ = rng.random()
+    if r_ < 0.4:
         t.metadata_schema = tskit.MetadataSchema({"codec": "json"})
         t.metadata = {"k": k, "s": "é参"}
+    elif r_ < 0.6:
+        t.metadata = b"\x00raw top-level \xff metadata"        # no schema
+    elif r_ < 0.7:
+        t.metadata_schema = tskit.MetadataSchema({"codec": "json"})    # schema, empty metadata
     if rng.random() < 0.5:
         t.time_units = rng.choice(["generations", "years", "µs", "", "unknown"])
     for name in ("nodes", "edges", "sites", "mutations", "individuals", "populations", "migrations"):
@@ -29,10 +34,14 @@ def decorate(run, t, k):
             rs.data = "ACGT" * rng.randint(0, 3)
         if rng.random() < 0.5:
             rs.url = "http://example.com/é"
-        if rng.random() < 0.5:
+        r_ = rng.random()
+        if r_ < 0.4:
             rs.metadata_schema = tskit.MetadataSchema({"codec": "json", "title": "réf"})
             if rng.random() < 0.5:
                 rs.metadata = {"a": 1}
+        elif r_ < 0.7:
+            # raw metadata bytes without a schema (the null codec passes bytes through)
+            rs.metadata = b"\x00\x01raw \xff\xfe bytes\x00"
     if rng.random() < 0.5:
         t.provenances.add_row(record='{"x": %d}' % k, timestamp="2020-01-01T00:00:%02d" % (k % 60))
     for m in range(t.mutations.num_rows):
@@ -170,4 +179,4 @@ def main():
 
 
 if __name__ == "__main__":
-    main()
+    O.run_main(main)
